@@ -29,7 +29,6 @@ Definition rep_strings : list (list N) :=
 Lemma rep_strings_roundtrip : forallb roundtrips rep_strings = true.
 Proof. vm_compute. reflexivity. Qed.
 (* and through the query parser: the encoded pair list decodes to the pairs *)
-Definition enc_pair (kv : list N * list N) : list N := encode_uri (fst kv) ++ [61] ++ encode_uri (snd kv).
 Definition rep_map : list (list N * list N) :=
   [ ([107;32;49], [118;38;61;37]); ([195;169], [240;159;152;128]); ([97;61;98], [63;35;47]); ([120], [37;52;49]) ].
 Lemma rep_map_roundtrip :
